@@ -206,13 +206,16 @@ TEXT["C18"] = {
              "differs only in the values of sasl.<p>.password / notifier.<n>.password leaves every response (and the world) unchanged. PROVED under the hypothesis Cfg.Plain — no configured key "
              "(module or profile name) itself contains a dot — (responses_independent_of_passwords_partial, handler_independent_of_passwords_partial), including dotted REQUEST names that reach "
              "into other sections, by a key-shape argument (not_password_of_suffix, leavesUnder_same) and the lemma that on a Plain configuration viper's longest-prefix, backtracking key "
-             "resolution (modelled exactly: Cfg.search) walks the key's own components (Proofs/HttpViper.lean: search_plain, norm_plain). WITHOUT the hypothesis the statement is false of the "
-             "code and the negation is proved with a witness (dotted_module_leak_witness: modules a and \"a.extras\" — GET /v3/config/notifier/a shows the second module's password), replayed "
-             "on the real server: known finding D20. The scrape does not read configuration at all; `decide` over the viper key literals REGENERATED from package httpserver shows none names a "
-             "password/secret/token and that the model reads only suffixes that occur in the source (no_password_key_read, model_reads_only_source_literals). Tie: configurations of every "
-             "module class and profile shape, with plain and dotted names, rendered with two random password assignments, all config routes x all names; each response equals the model's "
-             "field by field; plus a containment TEST (labelled as a test) for the concrete password values on both sides."),
-    "note": ("Trusted: Lean kernel + 3 standard axioms; viper modelled as a flattened raw-key-path map with its longest-prefix key resolution (validated differentially incl. dotted configured names; empty tables are leaves); log output and process environment not modelled. The tie is sampled. The unconditional statement is refuted (D20); what is proved is the _partial statement."),
+             "resolution (modelled exactly: Cfg.search) walks the key's own components (Proofs/HttpViper.lean: search_plain, norm_plain). The one way in which the statement was false of the code "
+             "without the hypothesis — D20: modules a and \"a.extras\", GET /v3/config/notifier/a showed the second module's table, password included, as the extras of a — was found by the "
+             "check and repaired (0423094: the extras are read from the module's own table); dotted_module_no_longer_leaks states the repaired behaviour on that configuration; for configurations "
+             "with dotted names in general the statement is not proved (scalar settings are still read through dotted keys) and rests on the differential run and the containment test. The "
+             "scrape does not read configuration at all; `decide` over the facts REGENERATED from package httpserver shows that no viper key literal names a password/secret/token, that the "
+             "model reads only suffixes that occur in the source, and pins the list of table-valued viper reads (no_password_key_read, model_reads_only_source_literals, "
+             "table_reads_are_the_modelled_ones). Tie: configurations of every module class and profile shape, with plain and dotted names (incl. the D20 pair), passwords of several shapes "
+             "(leading $, %…%, surrounding blanks, trailing newline), rendered with two random password assignments, all config routes x all names; each response equals the model's field by "
+             "field; plus a containment TEST (labelled as a test) for the concrete password values, raw and JSON-escaped, on both sides."),
+    "note": ("Trusted: Lean kernel + 3 standard axioms; viper modelled as a flattened raw-key-path map with its longest-prefix key resolution (validated differentially incl. dotted configured names; empty tables are leaves); log output and process environment not modelled. The tie is sampled. What is proved in general is the _partial statement (Plain configurations); the D20 leak outside it was repaired."),
 }
 
 TEXT["C19"] = {
